@@ -653,3 +653,200 @@ Proof.
       apply map_ext. intros r. now rewrite (nth_map_in _ _ _ _ _ 0 []) by exact Hp. }
     rewrite Em. exact HPm.
 Qed.
+
+(* ------------------------------------------------------------------ the C01 checker decides the specification *)
+Lemma slot_clause_iff : forall jds sl i,
+  (forallb (fun v => v <? length jds) sl &&
+   forallb (fun v => count v sl =? jd jds v i) (seq 0 (length jds))) = true <->
+  (forall v, count v sl = jd jds v i).
+Proof.
+  intros jds sl i. rewrite andb_true_iff, !forallb_forall. split.
+  - intros [H1 H2] v. destruct (Nat.ltb_spec v (length jds)) as [Hlt|Hge].
+    + now apply Nat.eqb_eq, H2, in_seq0.
+    + rewrite jd_overflow by exact Hge. apply count_zero_notin. intro Hin.
+      apply H1, Nat.ltb_lt in Hin. lia.
+  - intros H. split.
+    + intros v Hin. apply Nat.ltb_lt. apply count_pos_In in Hin. rewrite H in Hin.
+      destruct (Nat.ltb_spec v (length jds)); [assumption|]. rewrite jd_overflow in Hin; lia.
+    + intros v _. apply Nat.eqb_eq, H.
+Qed.
+
+Theorem c01_okb_spec : forall sizes mis jds calls jds_out verts,
+  c01_okb sizes mis jds calls jds_out verts = true <-> Spec_C01 sizes mis jds calls jds_out verts.
+Proof.
+  intros sizes mis jds calls jds_out verts. unfold c01_okb, Spec_C01, Spec_calls.
+  rewrite !andb_true_iff, lists_eqb_eq, !forallb_forall, Forall_forall. split.
+  - intros [[[[H1 H2] H3] H4] H5]. split; [exact H1|]. split.
+    { intros v Hv. now apply Nat.ltb_lt, H2. }
+    split; [|split].
+    + intros c Hc. specialize (H3 c Hc). apply andb_true_iff in H3. destruct H3 as [Ha Hb].
+      apply Nat.ltb_lt in Ha. apply Nat.eqb_eq in Hb. now split.
+    + intros j Hj. apply Nat.eqb_eq. apply H4. now apply in_seq0.
+    + intros j p Hj Hp. specialize (H5 j (proj2 (in_seq0 _ _) Hj)). cbv zeta in H5.
+      rewrite forallb_forall in H5. specialize (H5 p (proj2 (in_seq0 _ _) Hp)).
+      now apply slot_clause_iff.
+  - intros [H1 [H2 [H3 [H4 H5]]]]. repeat split.
+    + exact H1.
+    + intros v Hv. now apply Nat.ltb_lt, H2.
+    + intros c Hc. destruct (H3 c Hc) as [Ha Hb]. apply andb_true_iff. split.
+      * now apply Nat.ltb_lt.
+      * now apply Nat.eqb_eq.
+    + intros j Hj. apply Nat.eqb_eq. apply H4. now apply in_seq0.
+    + intros j Hj. cbv zeta. apply forallb_forall. intros p Hp. apply in_seq0 in Hj, Hp.
+      apply slot_clause_iff. now apply H5.
+Qed.
+
+(* ------------------------------------------------------------------ emission: columns, blocks, ids (C02) *)
+Definition endpoints (es : list (nat * nat)) : list nat := flat_map (fun e => [fst e; snd e]) es.
+
+Lemma endpoints_app : forall a b, endpoints (a ++ b) = endpoints a ++ endpoints b.
+Proof. intros. unfold endpoints. now rewrite flat_map_app. Qed.
+
+(* a build callback only connects vertices it was given *)
+Definition BuildClosed (build : nat -> list nat -> res shape) : Prop :=
+  forall j g sh, build j g = Ok sh -> incl (endpoints (edges_of sh)) g.
+
+Definition block_ok (custom : bool) (names : list (list nat)) (r : nat * shape) (blk : list row) : Prop :=
+  map r_edge blk = edges_of (snd r) /\
+  map r_name blk = expected_names custom names (fst r) (snd r) /\
+  (forall x y, In x blk -> In y blk -> r_id x = r_id y).
+
+Definition DistinctIds (blks : list (list row)) : Prop :=
+  forall a b x y, a <> b -> In x (nth a blks []) -> In y (nth b blks []) -> r_id x <> r_id y.
+
+(* C02 on three columns, relative to the callback results (one per motif instance, in call order) *)
+Definition Spec_C02 (custom : bool) (names : list (list nat)) (results : list (nat * shape))
+           (ce : list (nat * nat)) (cn ci : list nat) : Prop :=
+  length ce = length cn /\ length cn = length ci /\
+  exists blks, zip3 ce cn ci = concat blks /\
+               Forall2 (block_ok custom names) results blks /\
+               DistinctIds blks.
+
+(* what the callbacks returned along a list of calls *)
+Definition Results (build : nat -> list nat -> res shape) (cs : list ccall) (results : list (nat * shape)) : Prop :=
+  Forall2 (fun c r => fst r = fst c /\ build (fst c) (concat (snd c)) = Ok (snd r)) cs results.
+
+Lemma zip3_app : forall es nms ids ce cn ci,
+  length es = length nms -> length nms = length ids ->
+  zip3 (es ++ ce) (nms ++ cn) (ids ++ ci) = zip3 es nms ids ++ zip3 ce cn ci.
+Proof.
+  intros. unfold zip3. rewrite (combine_app_eq _ _ es ce nms cn) by assumption.
+  apply combine_app_eq. rewrite combine_length. lia.
+Qed.
+
+Lemma zip3_proj : forall es nms ids, length es = length nms -> length nms = length ids ->
+  map r_edge (zip3 es nms ids) = es /\ map r_name (zip3 es nms ids) = nms /\ map r_id (zip3 es nms ids) = ids.
+Proof.
+  induction es as [|e es IH]; intros [|n nms] [|i ids] H1 H2; cbn in *; try discriminate.
+  - repeat split.
+  - destruct (IH nms ids) as [P1 [P2 P3]]; try lia.
+    unfold zip3 in *. now rewrite P1, P2, P3.
+Qed.
+
+Lemma DistinctIds_offset : forall blks id,
+  (forall d x, In x (nth d blks []) -> r_id x = id + d) -> DistinctIds blks.
+Proof. intros blks id H a b x y Hab Hx Hy. rewrite (H a x Hx), (H b y Hy). lia. Qed.
+
+Lemma in_nth_nil : forall (blks : list (list row)) d x, In x (nth d blks []) -> d < length blks.
+Proof.
+  intros blks d x H. destruct (Nat.ltb_spec d (length blks)); [assumption|].
+  rewrite nth_overflow in H by assumption. contradiction.
+Qed.
+
+(* custom generator; the naming callbacks give one name per edge (hypothesis of C02) *)
+Definition NamesOk (build : nat -> list nat -> res shape) (names : list (list nat)) (cs : list ccall) : Prop :=
+  forall c es nms, In c cs -> build (fst c) (concat (snd c)) = Ok (Edges es) ->
+                   nth_error names (fst c) = Some nms -> length nms = length es.
+
+Lemma emit_custom_blocks : forall build names cs id ce cn ci,
+  emit_custom build names id cs = Ok (ce, cn, ci) ->
+  NamesOk build names cs ->
+  length ce = length cn /\ length cn = length ci /\
+  exists results blks,
+    Results build cs results /\
+    ce = concat (map (fun r => edges_of (snd r)) results) /\
+    zip3 ce cn ci = concat blks /\
+    Forall2 (block_ok true names) results blks /\
+    (forall d x, In x (nth d blks []) -> r_id x = id + d).
+Proof.
+  intros build names cs. induction cs as [|[j segs] cs IH]; intros id ce cn ci E NO.
+  - cbn in E. inversion E; subst. split; [reflexivity|]. split; [reflexivity|].
+    exists [], []. split; [constructor|]. split; [reflexivity|]. split; [reflexivity|].
+    split; [constructor|]. intros d x Hx. now destruct d.
+  - cbn [emit_custom] in E.
+    destruct (build j (concat segs)) as [sh|] eqn:Eb; [|discriminate].
+    destruct (nth_error names j) as [nms|] eqn:En; [|discriminate].
+    destruct (emit_custom build names (S id) cs) as [[[ce' cn'] ci']|] eqn:Ee; [|discriminate].
+    destruct (IH (S id) ce' cn' ci' Ee) as [L1 [L2 [results [blks [R [Ece [Z [F D]]]]]]]].
+    { intros c es nms' Hc. apply NO. now right. }
+    assert (Enth : nth j names [] = nms) by now apply nth_error_nth.
+    destruct sh as [a b|es]; inversion E; subst; clear E.
+    + split; [cbn; lia|]. split; [cbn; lia|].
+      exists ((j, Bare a b) :: results), ([((a, b), hd 0 (nth j names []), id)] :: blks).
+      split; [|split; [|split; [|split]]].
+      * constructor; [now split|exact R].
+      * reflexivity.
+      * unfold zip3 in *. cbn. now rewrite Z.
+      * constructor; [|exact F]. split; [reflexivity|]. split; [reflexivity|].
+        intros x y [<-|[]] [<-|[]]. reflexivity.
+      * intros d x Hx. destruct d as [|d]; cbn in Hx.
+        -- destruct Hx as [<-|[]]. cbn. lia.
+        -- rewrite (D d x Hx). lia.
+    + assert (Hl : length (nth j names []) = length es).
+      { apply (NO (j, segs) es); [now left|exact Eb|exact En]. }
+      split; [rewrite !app_length; lia|]. split; [rewrite !app_length, repeat_length; lia|].
+      exists ((j, Edges es) :: results), (zip3 es (nth j names []) (repeat id (length es)) :: blks).
+      assert (Hr : length (nth j names []) = length (repeat id (length es))) by now rewrite repeat_length.
+      destruct (zip3_proj es (nth j names []) (repeat id (length es))) as [P1 [P2 P3]]; try congruence.
+      split; [|split; [|split; [|split]]].
+      * constructor; [now split|exact R].
+      * reflexivity.
+      * cbn [concat]. rewrite zip3_app by congruence. now rewrite Z.
+      * constructor; [|exact F]. split; [exact P1|]. split; [exact P2|].
+        intros x y Hx Hy. apply (in_map r_id) in Hx, Hy. rewrite P3 in Hx, Hy.
+        apply repeat_spec in Hx, Hy. congruence.
+      * intros d x Hx. destruct d as [|d]; cbn [nth] in Hx.
+        -- apply (in_map r_id) in Hx. rewrite P3 in Hx. apply repeat_spec in Hx. lia.
+        -- rewrite (D d x Hx). lia.
+Qed.
+
+Lemma emit_fast_blocks : forall build names cs id ce cn ci,
+  emit_fast build (map (hd 0) names) id cs = Ok (ce, cn, ci) ->
+  length ce = length cn /\ length cn = length ci /\
+  exists results blks,
+    Results build cs results /\
+    ce = concat (map (fun r => edges_of (snd r)) results) /\
+    zip3 ce cn ci = concat blks /\
+    Forall2 (block_ok false names) results blks /\
+    (forall d x, In x (nth d blks []) -> r_id x = id + d).
+Proof.
+  intros build names cs. induction cs as [|[j segs] cs IH]; intros id ce cn ci E.
+  - cbn in E. inversion E; subst. split; [reflexivity|]. split; [reflexivity|].
+    exists [], []. split; [constructor|]. split; [reflexivity|]. split; [reflexivity|].
+    split; [constructor|]. intros d x Hx. now destruct d.
+  - cbn [emit_fast] in E.
+    destruct (build j (concat segs)) as [sh|] eqn:Eb; [|discriminate].
+    destruct sh as [a b|es]; [discriminate|].
+    destruct (nth_error (map (hd 0) names) j) as [nm|] eqn:En; [|discriminate].
+    destruct (emit_fast build (map (hd 0) names) (S id) cs) as [[[ce' cn'] ci']|] eqn:Ee; [|discriminate].
+    destruct (IH (S id) ce' cn' ci' Ee) as [L1 [L2 [results [blks [R [Ece [Z [F D]]]]]]]].
+    inversion E; subst; clear E.
+    assert (Enm : nm = hd 0 (nth j names [])).
+    { rewrite nth_error_map in En. destruct (nth_error names j) as [l|] eqn:El; [|discriminate].
+      inversion En. now rewrite (nth_error_nth _ _ _ El). }
+    split; [rewrite !app_length, repeat_length; lia|]. split; [rewrite !app_length, !repeat_length; lia|].
+    exists ((j, Edges es) :: results), (zip3 es (repeat nm (length es)) (repeat id (length es)) :: blks).
+    destruct (zip3_proj es (repeat nm (length es)) (repeat id (length es))) as [P1 [P2 P3]];
+      try now rewrite !repeat_length.
+    split; [|split; [|split; [|split]]].
+    + constructor; [now split|exact R].
+    + reflexivity.
+    + cbn [concat]. rewrite zip3_app by now rewrite !repeat_length. now rewrite Z.
+    + constructor; [|exact F]. split; [exact P1|]. split.
+      * rewrite P2, Enm. unfold expected_names. cbn. reflexivity.
+      * intros x y Hx Hy. apply (in_map r_id) in Hx, Hy. rewrite P3 in Hx, Hy.
+        apply repeat_spec in Hx, Hy. congruence.
+    + intros d x Hx. destruct d as [|d]; cbn [nth] in Hx.
+      * apply (in_map r_id) in Hx. rewrite P3 in Hx. apply repeat_spec in Hx. lia.
+      * rewrite (D d x Hx). lia.
+Qed.
